@@ -28,6 +28,9 @@ type Profile struct {
 	SleepMs                int  // max per-target latency
 	EdgeProb               int  // percent
 	SharedNames            bool // targets in different packages may carry the same name
+	// ExtraPkgs: further package paths to draw from (e.g. "a_b" next to "a/b": names that
+	// collide once path separators are flattened)
+	ExtraPkgs []string
 }
 
 func DefaultProfile() Profile {
@@ -41,7 +44,7 @@ var pkgPool = []string{"", "a", "a/b", "p", "p2", "lib/x", "a/b/c"}
 func Gen(r *rng.R, pf Profile) *Spec {
 	s := &Spec{Files: map[string]string{}}
 	np := r.Range(1, max(1, pf.MaxPackages))
-	pool := append([]string{}, pkgPool...)
+	pool := append(append([]string{}, pkgPool...), pf.ExtraPkgs...)
 	rng.Shuffle(r, pool)
 	pkgs := pool[:np]
 	sort.Strings(pkgs)
